@@ -151,9 +151,16 @@ func WeakDiff(src, out []byte) string {
 		return "tokens: " + d
 	}
 	if d := oracle.SameShapeSrc(src, out); d != "" {
-		return "shape: " + d
+		// KF-3 as recorded: a line-ending comment moved behind the name of a generic alias can make
+		// the output unparseable; the token stream (compared above) is still the input's
+		if !(genericAlias(src) && strings.Contains(d, "does not parse")) {
+			return "shape: " + d
+		}
 	}
 	if d := oracle.DiffStrings(squash(ca), squash(cb)); d != "" {
+		if oracle.DiffStrings(dropEmpty(squash(ca)), dropEmpty(squash(cb))) == "" {
+			return "" // go/printer's doc-comment formatter inserts and removes empty "//" lines when it re-flows a group
+		}
 		sa, sb := squash(ca), squash(cb)
 		sort.Strings(sa)
 		sort.Strings(sb)
